@@ -83,15 +83,19 @@ FirstDiff(a, b, k) ==
     ELSE IF a[k] # b[k] THEN k ELSE FirstDiff(a, b, k + 1)
 
 \* compact one-line report: the components that differ and where
+\*   component 1: the returned result; 2: chunks whose observable behaviour contradicts C06 / C17 (a set of offsets);
+\*   3: per-entry result vs the specification's single verification; 4: vs the real single verifier
 Report(i, expected, got) ==
     LET d == [c \in 1..Len(expected) |->
                  IF expected[c] = got[c] THEN 0
                  ELSE IF c = 1 THEN (IF expected[c].err # got[c].err \/ expected[c].ok # got[c].ok THEN -1
                                      ELSE FirstDiff(expected[c].valid, got[c].valid, 1))
+                 ELSE IF c = 2 THEN -2
                  ELSE FirstDiff(expected[c], got[c], 1)]
         diff == SubSeq(d, 1, Len(expected))
         bad  == \E c \in 1..Len(expected) : diff[c] # 0
-        detail(c) == IF diff[c] <= 0 THEN <<c, diff[c]>>
+        detail(c) == IF c = 2 THEN <<c, "chunks at offsets", got[c]>>
+                     ELSE IF diff[c] <= 0 THEN <<c, diff[c]>>
                      ELSE IF c = 1 THEN <<c, diff[c], expected[c].valid[diff[c]], got[c].valid[diff[c]]>>
                      ELSE <<c, diff[c], IF diff[c] <= Len(expected[c]) THEN expected[c][diff[c]] ELSE "end",
                                         IF diff[c] <= Len(got[c]) THEN got[c][diff[c]] ELSE "end">>
@@ -124,16 +128,42 @@ Step == pc \notin {"root", "returned", "checked"} /\ B!BNext /\ UNCHANGED idx
 HookSeq(i) == [k \in 1..Len(Tr[i].hooks) |-> <<Tr[i].hooks[k][1], Tr[i].hooks[k][2], Tr[i].hooks[k][3]>>]
 GotResult(i) == [ok |-> Tr[i].result.ok, valid |-> Tr[i].result.valid, err |-> Tr[i].result.err]
 
+\* What the properties say about the OBSERVABLE behaviour of one chunk of the real call (h = recorded hook events,
+\* k = index of its ChunkBegin event).  The model's own event sequence is stricter (which entry failBatch names, the
+\* order of the marks, ...): a difference there is reported as a NOTE, not as a violation, because C06 / C17 do not
+\* prescribe it.
+ChunkIdx(h) == {k \in 1..Len(h) : h[k][1] = "ChunkBegin"}
+SegEnd(h, k) == IF \E m \in ChunkIdx(h) : m > k
+                THEN (CHOOSE m \in ChunkIdx(h) : m > k /\ \A q \in ChunkIdx(h) : q > k => m <= q) - 1
+                ELSE Len(h)
+ChunkBad(h, k, callOk) ==
+    LET off == h[k][2]   bs == h[k][3]
+        seg == (k + 1)..SegEnd(h, k)
+        eqs == {m \in seg : h[m][1] = "Equation"}
+        fellBack == \E m \in seg : h[m][1] = "Fallback"
+        inRange  == off >= 0 /\ bs >= 1 /\ off + bs <= Len(entries)
+    IN  \/ ~inRange
+        \* C17: whenever the batch equation is evaluated its result is the exact one
+        \/ \E m \in eqs : (h[m][2] = 1) # xChunkEquation(entries, off, bs)
+        \* C17: a chunk whose entries are all valid is accepted by the equation itself, without the fallback
+        \/ /\ callOk
+           /\ \A j \in (off + 1)..(off + bs) : B!Single(entries[j], zip)
+           /\ fellBack \/ ~\E m \in eqs : h[m][2] = 1
+ProjBad(h, callOk) == {h[k][2] : k \in {kk \in ChunkIdx(h) : ChunkBad(h, kk, callOk)}}
+
 Finish ==
     /\ pc = "returned"
     /\ LET got    == GotResult(idx)
+           h      == HookSeq(idx)
            \* C06: per-entry result = single verification (stated for non-degenerate entropy)
            strict == Tr[idx].pre = "none" /\ result.err = "none" /\ ~Tr[idx].degenerate
            single == [j \in 1..Len(entries) |-> B!Single(entries[j], zip)]
            \* ... and equals what the real single verifier returned for the same entry
            real   == IF strict THEN Tr[idx].singles ELSE << >>
-       IN  Report(idx, <<result, evs, IF strict THEN single ELSE << >>, real>>,
-                       <<got, HookSeq(idx), IF strict THEN got.valid ELSE << >>, IF strict THEN got.valid ELSE << >> >>)
+           chunks == IF Tr[idx].pre = "none" THEN ProjBad(h, got.err = "none") ELSE {}
+       IN  /\ Report(idx, <<result, {}, IF strict THEN single ELSE << >>, real>>,
+                          <<got, chunks, IF strict THEN got.valid ELSE << >>, IF strict THEN got.valid ELSE << >> >>)
+           /\ evs = h \/ PrintT(<<"NOTE", idx, "hook sequence differs from Batch.tla at", FirstDiff(evs, h, 1)>>)
     /\ pc' = "checked"
     /\ UNCHANGED <<entries, zip, entropyOk, num, offset, valid, ret, batchOk, chunk, evs, result, idx>>
 
